@@ -13,7 +13,8 @@ CASES = [
  ("template-reuse-after-zip", "C17|template:ellipsis-variable-reused-after-zip", D("((_ (a b) ...) '(((a b) ...) (b ...)))"), "(k (1 2) (3 4))", None),
  ("pattern-dotted-tail-skipped", "C17|pattern:dotted-tail", D("((_ a . r) 'first) ((_ a b) 'second)"), "(k 1 2)", None),
  ("pattern-dotted-tail-binding", "C17|pattern:dotted-tail", D("((_ . r) 'r)"), "(k 1)", None),
- ("pattern-dotted-tail-accepts", "C17|nomatch-accepted|pattern:dotted-tail", D("((_ . else) 'matched)", "(else)"), "(k else)", None),
+ ("pattern-dotted-tail-accepts", "C17|nomatch-accepted|pattern:dot-after-keyword", D("((_ . else) 'matched)", "(else)"), "(k else)", None),
+ ("pattern-dot-after-keyword-earlier-rule", "C17|earlier-rule-accepted|pattern:dot-after-keyword", D("((_ . else) 'first) ((_ a) 'second)", "(else)"), "(k else)", None),
  ("pattern-vector", "C17|pattern:vector", D("((_ #(a)) 'first) ((_ b) 'second)"), "(k #(1))", None),
  ("pattern-ellipsis-zero-items-before-tail", "C17|pattern:ellipsis-before-fixed-tail|zero-items", D("((_ a ... b) 'first) ((_ c) 'second)"), "(k 1)", None),
  ("nonterm-nested-ellipsis", N+"template:ellipsis-after-nested-ellipsis-only|abort", D("((_ (a ...) ...) '((a ...) ...))"), "(k (1 2) (3))", N+"template:ellipsis-after-nested-ellipsis-only"),
